@@ -1,4 +1,4 @@
-(* run_c07p is a conservative extension of run_c07: on inputs without queries of the new kinds 5 and 6 the two
+(* run_c07p is a conservative extension of run_c07: on inputs without queries of the new kinds 5, 6 and 7 the two
    functions agree, so everything the correspondence compared before is still compared, by the same functions. *)
 From Coq Require Import ZArith List Bool.
 From CSS Require Import Base.Sx Base.PyList Count.ObjectsModel Count.ObjectsTermsModel Count.ObjectsRun
@@ -7,15 +7,16 @@ Import ListNotations.
 Open Scope Z_scope.
 
 Definition old_kind (q : sx) : Prop :=
-  let k := sx_Z (nth 0 (sx_list q) (I 0)) in k <> 5 /\ k <> 6.
+  let k := sx_Z (nth 0 (sx_list q) (I 0)) in k <> 5 /\ k <> 6 /\ k <> 7.
 
 Lemma run_queries_p_old rules descs : forall qs s t,
   Forall old_kind qs -> run_queries_p rules descs s t qs = run_queries rules s t qs.
 Proof.
   induction qs as [|q r IH]; intros s t HF; [reflexivity|].
-  inversion HF as [|? ? [H5 H6] Hr]; subst. simpl.
+  inversion HF as [|? ? [H5 [H6 H7]] Hr]; subst. simpl.
   destruct (Z.eqb_spec (sx_Z (nth 0 (sx_list q) (I 0))) 5) as [E|_]; [contradiction|].
-  destruct (Z.eqb_spec (sx_Z (nth 0 (sx_list q) (I 0))) 6) as [E|_]; [contradiction|]. simpl.
+  destruct (Z.eqb_spec (sx_Z (nth 0 (sx_list q) (I 0))) 6) as [E|_]; [contradiction|].
+  destruct (Z.eqb_spec (sx_Z (nth 0 (sx_list q) (I 0))) 7) as [E|_]; [contradiction|]. simpl.
   destruct (sx_Z (nth 0 (sx_list q) (I 0)) =? 4).
   - destruct (get_terms _ _ _ _ _) as [[t' tm]|]; rewrite IH by assumption; reflexivity.
   - destruct (run_query rules s q) as [s' ans]. rewrite IH by assumption. reflexivity.
